@@ -2,6 +2,7 @@ pub mod c03;
 pub mod c10;
 pub mod c11;
 pub mod c12;
+pub mod c15;
 pub mod c17;
 pub mod c19;
 pub mod c20;
@@ -16,6 +17,7 @@ pub fn dispatch(ctx: &Ctx) -> i32 {
         "C10" => c10::run(ctx),
         "C11" => c11::run(ctx),
         "C12" => c12::run(ctx),
+        "C15" => c15::run(ctx),
         "C17" => c17::run(ctx),
         "C19" => c19::run(ctx),
         "C20" => c20::run(ctx),
